@@ -56,6 +56,13 @@ func (*MemMapFs) Name() string { return "MemMapFS" }
 func (m *MemMapFs) Create(name string) (File, error) {
 	name = normalizePath(name)
 	m.mu.Lock()
+	if existing, ok := m.getData()[name]; ok && !mem.GetFileInfo(existing).IsDir() {
+		// creating over an existing file truncates it in place (O_TRUNC semantics), so
+		// handles already open on the file keep referring to the file that is visible
+		m.mu.Unlock()
+		h := mem.NewFileHandle(existing)
+		return h, h.Truncate(0)
+	}
 	file := mem.CreateFile(name)
 	m.getData()[name] = file
 	m.registerWithParent(file, 0)
